@@ -2,7 +2,7 @@ HOOK_COMMITS = []
 ENGINES = [
     {"name": "explore", "path": "vf/core/explore.py", "serves_properties": ["C01", "C02", "C03", "C07", "C08", "C09", "C11", "C13", "C14", "C15", "C16", "C17", "C18", "C20"], "kind_free_text": "explicit-state BFS with state merging over the real objects; bounded product enumeration; deviation-bounded stateless DFS"},
     {"name": "vthreads", "path": "vf/core/vthreads.py", "serves_properties": ["C06", "C19"], "kind_free_text": "baton scheduler over real threads with scheduler-aware queue/future/executor shims and sys.settrace line points; deviation-bounded DFS over schedules; deadlock and livelock detection"},
-    {"name": "vloop", "path": "vf/core/vloop.py", "serves_properties": ["C06", "C10", "C19"], "kind_free_text": "virtual asyncio event loop stepped by hand: ready-queue steps, environment events and timers are explicit choices explored exhaustively by explore.dfs"},
+    {"name": "vloop", "path": "vf/core/vloop.py", "serves_properties": ["C05", "C06", "C10", "C19"], "kind_free_text": "virtual asyncio event loop stepped by hand: ready-queue steps, environment events and timers are explicit choices explored exhaustively by explore.dfs"},
 ]
 NOT_APPLICABLE = {}
 CHECKS = {
@@ -107,5 +107,11 @@ CHECKS = {
         technique="stateless preemption-bounded exploration of real threads under a baton scheduler (WSGI) and exhaustive interleaving exploration on a virtual asyncio loop (ASGI), with deadlock/leak detection",
         text="WSGI SendEventResponse runs on real threads of which only one holds the baton; queue.Queue, the pool future and the executor are replaced by scheduler-aware shims and every source line of render_stream/push is a scheduling point (sys.settrace): all schedules with <=2 preemptions at primitive operations and <=1 with line points (thorough 3/2), for every producer length <=2 (3), failure step, close point and ping-timeout budget; deadlock = no enabled thread. ASGI StreamResponse/SendEventResponse: producer steps, send completions, the disconnect and ping timers are explicit events of a hand-stepped event loop, all interleavings explored. Oracle: the call returns, no thread/task/timer left, generator cleanup exactly once, delivered = prefix of yielded, the producer's exception surfaces when nobody left.",
         note="line granularity; shim primitives bound to the real ones by a differential self-test; n <= 3 items, <= 2 timeouts",
+    ),
+    "C05": dict(
+        engine="explore+vloop", level="model_checking", design_ref="DESIGN.md §3 C05",
+        technique="exhaustive enumeration of response recipes x fault positions judged by prefix-closed gateway-protocol automata; disconnect positions as interleavings on the virtual loop",
+        text="1176 small-response recipes (7 status codes incl. unknown ones x 7 content kinds x 4 header sets x 3 cookie sets), streams and event streams of 0..3 items with the producer failing at every step, file responses x 5 download names (ASCII, Latin-1, CJK, quote) x 8 Range variants incl. every error path x GET/HEAD x chunk sizes, on WSGI, ASGI and ASGI+zero-copy; for each, send() failing at every call index (ASGI) / close() after every item (WSGI); http.disconnect at every interleaving position of the ASGI streaming responses. The emitted sequence must be accepted by the ASGI http / WSGI automata as complete (no fault) or as a legal prefix (fault).",
+        note="finite argument menus; a failing send raises OSError; header arguments without control characters (C13's subject)",
     ),
 }
